@@ -1,12 +1,512 @@
 /-
-C11 — sub-sampling, cropping, splitting, merging select exactly the specified poses.
+C11 — sub-sampling, cropping, splitting and merging select exactly the specified poses.
+Property theorems about `Evo.Select` (model of `downsample`, `motion_filter`/`filter_by_motion`,
+`reduce_to_time_range`, `_jumps` + the three splitters, `merge`). Helper lemmas: `Lemmas/Select.lean`.
+
+Rounding: `numpy.linspace(0, n-1, N, dtype=int)` rounds twice in binary64. The clauses that depend on
+it (`linspace_in_envelope`, `linspace_strict_mono`, `linspace_even`, `downsample_count`, …) are proved
+for EVERY rounding function `r` with `F64Rounding r` (relative error ≤ 2⁻⁵³ on [1/2, 2⁵³], exact on
+naturals < 2⁵³) and therefore for `Evo.F64.rne!` as soon as `F64Rounding F64.rne!` is available
+(`Lemmas/F64.lean`, owned by C06/C07); `downsample = downsampleWith F64.rne!` holds by definition.
+The clauses that do not depend on rounding are unconditional.
 -/
-import EvoModel.Model.Select
+import EvoModel.Lemmas.Select
+import Mathlib.Tactic.NormNum
 namespace Evo.C11
 open Evo Evo.Select
 
-theorem downsample_noop_if_small {α} (l : List α) (N : Nat) (h : l.length ≤ N) :
-    downsample l N = .ok l := by
-  simp [downsample, downsampleIds, h]
+/-! ### down-sampling -/
+
+/-- the model of evo's `downsample` is the generic one at binary64 round-to-nearest-even -/
+theorem downsample_is_f64 {α} (l : List α) (N : Nat) : downsample l N = downsampleWith F64.rne! l N := rfl
+
+/-- "does nothing if the trajectory already has less or equal poses" -/
+theorem downsample_noop_if_small {α} (r : Rat → Rat) (l : List α) (N : Nat) (h : l.length ≤ N) :
+    downsampleWith r l N = .ok l := by
+  simp [downsampleWith, downsampleIdsWith, h]
+
+/-- fewer than one pose is refused (when there is something to drop) -/
+theorem downsample_refuses_zero {α} (r : Rat → Rat) (l : List α) (h : 0 < l.length) :
+    downsampleWith r l 0 = .error .traj := by
+  have : ¬ l.length ≤ 0 := by omega
+  simp [downsampleWith, downsampleIdsWith, this]
+
+/-- `linspace` returns exactly `N` ids (any rounding) -/
+theorem linspace_count (r : Rat → Rat) (n N : Nat) : (linspaceIdsWith r n N).length = N :=
+  linspaceIdsWith_length r n N
+
+/-- the last id is `n − 1` for `N ≥ 2` (any rounding: numpy sets it explicitly) -/
+theorem linspace_last (r : Rat → Rat) (n N : Nat) (hN : 2 ≤ N) :
+    (linspaceIdsWith r n N)[N - 1]? = some (n - 1) := linspaceIdsWith_last r n N hN
+
+/-- the first id is `0` for evo's rounding (`0 · step = 0` and `rne 0 = 0`; unconditional) -/
+theorem linspace_first (n N : Nat) (hN : 1 ≤ N) : (linspaceIds n N)[0]? = some 0 := by
+  by_cases h1 : N = 1
+  · subst h1; rfl
+  · have hN2 : 2 ≤ N := by omega
+    unfold linspaceIds
+    rw [linspaceIdsWith_lt F64.rne! n N 0 hN2 (by omega)]
+    have : ((0 : Nat) : Rat) * F64.rne! (((n - 1 : Nat) : Rat) / ((N - 1 : Nat) : Rat)) = 0 := by
+      simp
+    rw [this]
+    rfl
+
+/-- **the float rounding matters**: `n = 31, N = 23, k = 11`: numpy (and the model) keep pose 14,
+the exact value `⌊11·30/22⌋` is 15 -/
+theorem linspace_rounding_matters :
+    (linspaceIds 31 23)[11]? = some 14 ∧ 11 * 30 / 22 = 15 := by decide +kernel
+
+/-- **every id is the exact floor `⌊k(n−1)/(N−1)⌋`, or one below it where `k(n−1)/(N−1)` is an integer
+although `(n−1)/(N−1)` is not** — from the rounding error bound -/
+theorem linspace_in_envelope (r : Rat → Rat) (hr : F64Rounding r) (n N : Nat)
+    (hN : 2 ≤ N) (hNn : N < n) (hsz : 3 * (n - 1) * (N - 1) < 2 ^ 53) (k i : Nat)
+    (hk : (linspaceIdsWith r n N)[k]? = some i) : InEnvelope (n - 1) (N - 1) k i :=
+  linspaceIdsWith_envelope r hr n N hN hNn hsz k i hk
+
+/-- **pure integer arithmetic**: every list of `b + 1` ids in the envelope (`a = n−1`, `b = N−1`,
+`1 ≤ b < a`) that ends with `a` starts at 0, is strictly increasing, has all gaps in
+`{⌊a/b⌋, ⌈a/b⌉}` (exactly `a/b` when `b ∣ a`), deviates by at most 1 from `k·a/b`, and stays `≤ a` -/
+theorem envelope_props (a b : Nat) (hb : 1 ≤ b) (hba : b < a) (ids : List Nat)
+    (hlen : ids.length = b + 1)
+    (henv : ∀ k i, ids[k]? = some i → InEnvelope a b k i)
+    (hlast : ids[b]? = some a) :
+    ids[0]? = some 0 ∧
+    (∀ k i j, ids[k]? = some i → ids[k + 1]? = some j →
+        i + a / b ≤ j ∧ j ≤ i + a / b + (if b ∣ a then 0 else 1)) ∧
+    ids.Pairwise (· < ·) ∧
+    (∀ k i, ids[k]? = some i → i * b ≤ k * a ∧ k * a ≤ (i + 1) * b) ∧
+    (∀ i ∈ ids, i ≤ a) := by
+  have hgap : ∀ k i j, ids[k]? = some i → ids[k + 1]? = some j →
+      i + a / b ≤ j ∧ j ≤ i + a / b + (if b ∣ a then 0 else 1) := by
+    intro k i j hi hj
+    exact envelope_gap a b k i j (by omega) (henv k i hi) (henv (k + 1) j hj)
+  have hdev : ∀ k i, ids[k]? = some i → i * b ≤ k * a ∧ k * a ≤ (i + 1) * b :=
+    fun k i hi => envelope_dev a b k i (by omega) (henv k i hi)
+  have hab1 : 1 ≤ a / b := (Nat.one_le_div_iff (by omega)).mpr (by omega)
+  refine ⟨?_, hgap, ?_, hdev, ?_⟩
+  · have h0 : 0 < ids.length := by omega
+    have e : ids[0]? = some ids[0] := List.getElem?_eq_getElem h0
+    rw [e, envelope_zero a b _ (henv 0 _ e)]
+  · apply List.isChain_iff_pairwise.mp
+    apply List.isChain_iff_getElem.mpr
+    intro i hi
+    have e1 : ids[i]? = some ids[i] := List.getElem?_eq_getElem (by omega)
+    have e2 : ids[i + 1]? = some ids[i + 1] := List.getElem?_eq_getElem hi
+    have := (hgap i _ _ e1 e2).1
+    omega
+  · intro i hi
+    obtain ⟨k, hk, rfl⟩ := List.getElem_of_mem hi
+    have e : ids[k]? = some ids[k] := List.getElem?_eq_getElem hk
+    have h1 := (hdev k _ e).1
+    have hkb : k ≤ b := by omega
+    have h2 : k * a ≤ b * a := Nat.mul_le_mul_right a hkb
+    have h3 : ids[k] * b ≤ a * b := by rw [Nat.mul_comm a b]; exact h1.trans h2
+    exact Nat.le_of_mul_le_mul_right h3 (by omega)
+
+/-- the hypotheses of `envelope_props` hold for the ids of `linspace` -/
+theorem linspace_props (r : Rat → Rat) (hr : F64Rounding r) (n N : Nat)
+    (hN : 2 ≤ N) (hNn : N < n) (hsz : 3 * (n - 1) * (N - 1) < 2 ^ 53) :
+    let ids := linspaceIdsWith r n N
+    ids[0]? = some 0 ∧
+    (∀ k i j, ids[k]? = some i → ids[k + 1]? = some j →
+        i + (n - 1) / (N - 1) ≤ j ∧ j ≤ i + (n - 1) / (N - 1) + (if (N - 1) ∣ (n - 1) then 0 else 1)) ∧
+    ids.Pairwise (· < ·) ∧
+    (∀ k i, ids[k]? = some i → i * (N - 1) ≤ k * (n - 1) ∧ k * (n - 1) ≤ (i + 1) * (N - 1)) ∧
+    (∀ i ∈ ids, i ≤ n - 1) := by
+  intro ids
+  apply envelope_props (n - 1) (N - 1) (by omega) (by omega) ids
+  · rw [linspaceIdsWith_length]; omega
+  · exact fun k i hk => linspace_in_envelope r hr n N hN hNn hsz k i hk
+  · exact linspaceIdsWith_last r n N hN
+
+/-- **kept ids strictly increase** (so down-sampling preserves the order and never duplicates a pose) -/
+theorem linspace_strict_mono (r : Rat → Rat) (hr : F64Rounding r) (n N : Nat)
+    (hN : 1 ≤ N) (hNn : N < n) (hsz : 3 * (n - 1) * (N - 1) < 2 ^ 53) :
+    (linspaceIdsWith r n N).Pairwise (· < ·) ∧ ∀ i ∈ linspaceIdsWith r n N, i < n := by
+  by_cases h1 : N = 1
+  · subst h1
+    simp [linspaceIdsWith]; omega
+  · have hp := linspace_props r hr n N (by omega) hNn hsz
+    refine ⟨hp.2.2.1, fun i hi => ?_⟩
+    have := hp.2.2.2.2 i hi
+    omega
+
+/-- **evenly spaced by index**: with `s = (n−1)/(N−1)`, every gap is `⌊s⌋` or `⌈s⌉` and
+`|id_k − k·s| ≤ 1` (stated in integers, multiplied by `N − 1`) -/
+theorem linspace_even (r : Rat → Rat) (hr : F64Rounding r) (n N : Nat)
+    (hN : 2 ≤ N) (hNn : N < n) (hsz : 3 * (n - 1) * (N - 1) < 2 ^ 53) (k i : Nat)
+    (hi : (linspaceIdsWith r n N)[k]? = some i) :
+    (i * (N - 1) ≤ k * (n - 1) ∧ k * (n - 1) ≤ (i + 1) * (N - 1)) ∧
+    ∀ j, (linspaceIdsWith r n N)[k + 1]? = some j →
+      i + (n - 1) / (N - 1) ≤ j ∧ j ≤ i + (n - 1) / (N - 1) + (if (N - 1) ∣ (n - 1) then 0 else 1) := by
+  have hp := linspace_props r hr n N hN hNn hsz
+  exact ⟨hp.2.2.2.1 k i hi, fun j hj => hp.2.1 k i j hi hj⟩
+
+/-- **down-sampling to N keeps exactly min(N, count) poses** -/
+theorem downsample_count {α} (r : Rat → Rat) (hr : F64Rounding r) (l l' : List α) (N : Nat)
+    (hsz : 3 * (l.length - 1) * (N - 1) < 2 ^ 53)
+    (h : downsampleWith r l N = .ok l') : l'.length = min N l.length := by
+  unfold downsampleWith downsampleIdsWith at h
+  by_cases hs : l.length ≤ N
+  · simp only [hs, if_true] at h
+    injection h with h; subst h; omega
+  · simp only [hs, if_false] at h
+    by_cases h0 : N < 1
+    · simp [h0] at h
+    · simp only [h0, if_false] at h
+      injection h with h; subst h
+      have hm := linspace_strict_mono r hr l.length N (by omega) (by omega) hsz
+      rw [reduceIds_length l _ hm.2, linspaceIdsWith_length]
+      omega
+
+/-- **always including the first pose and (for N ≥ 2) the last** -/
+theorem downsample_keeps_first_last {α} (r : Rat → Rat) (hr : F64Rounding r) (l l' : List α) (N : Nat)
+    (hN : 1 ≤ N) (hsz : 3 * (l.length - 1) * (N - 1) < 2 ^ 53)
+    (h : downsampleWith r l N = .ok l') :
+    l'[0]? = l[0]? ∧ (2 ≤ N → l'[l'.length - 1]? = l[l.length - 1]?) := by
+  have hcount := downsample_count r hr l l' N hsz h
+  unfold downsampleWith downsampleIdsWith at h
+  by_cases hs : l.length ≤ N
+  · simp only [hs, if_true] at h
+    injection h with h; subst h; exact ⟨rfl, fun _ => rfl⟩
+  · simp only [hs, if_false] at h
+    have h0 : ¬ N < 1 := by omega
+    simp only [h0, if_false] at h
+    injection h with h
+    have hm := linspace_strict_mono r hr l.length N hN (by omega) hsz
+    have hget := reduceIds_getElem? l _ hm.2
+    rw [← h]
+    constructor
+    · rw [hget 0]
+      by_cases h1 : N = 1
+      · subst h1; simp [linspaceIdsWith]
+      · have := (linspace_props r hr l.length N (by omega) (by omega) hsz).1
+        rw [this]; rfl
+    · intro hN2
+      rw [h, hcount, ← h, Nat.min_eq_left (by omega), hget (N - 1), linspaceIdsWith_last r _ N hN2]
+      rfl
+
+/-- **down-sampling preserves the relative order of the kept poses** (and keeps each pose as a
+whole element of the input list) -/
+theorem downsample_preserves_order {α} (r : Rat → Rat) (hr : F64Rounding r) (l l' : List α) (N : Nat)
+    (hN : 1 ≤ N) (hsz : 3 * (l.length - 1) * (N - 1) < 2 ^ 53)
+    (h : downsampleWith r l N = .ok l') : l'.Sublist l := by
+  unfold downsampleWith downsampleIdsWith at h
+  by_cases hs : l.length ≤ N
+  · simp only [hs, if_true] at h
+    injection h with h; subst h; exact List.Sublist.refl _
+  · simp only [hs, if_false] at h
+    have h0 : ¬ N < 1 := by omega
+    simp only [h0, if_false] at h
+    injection h with h; subst h
+    exact reduceIds_sublist l _ (linspace_strict_mono r hr l.length N hN (by omega) hsz).1
+
+/-! ### motion filter -/
+
+/-- fewer than two poses, or a negative threshold, are refused (`FilterException`) -/
+theorem motion_refuses (acc : List Rat) (ang : Nat → Nat → Rat) (d a : Rat) :
+    motionFilterAcc acc ang d a = .error .filter ↔ (acc.length < 2 ∨ d < 0 ∨ a < 0) := by
+  unfold motionFilterAcc
+  by_cases h1 : acc.length < 2
+  · simp [h1]
+  · by_cases h2 : d < 0
+    · simp [h1, h2]
+    · by_cases h3 : a < 0
+      · simp [h1, h2, h3]
+      · simp [h1, h2, h3]
+
+theorem motion_ok (acc : List Rat) (ang : Nat → Nat → Rat) (d a : Rat) (ids : List Nat)
+    (h : motionFilterAcc acc ang d a = .ok ids) :
+    ids = 0 :: motionGo ang d a acc.tail 1 0 0 ∧ 2 ≤ acc.length := by
+  unfold motionFilterAcc at h
+  split_ifs at h with h1
+  injection h with h
+  exact ⟨h.symm, by omega⟩
+
+/-- **motion filtering always keeps the first pose** -/
+theorem motion_keeps_first (acc : List Rat) (ang : Nat → Nat → Rat) (d a : Rat) (ids : List Nat)
+    (h : motionFilterAcc acc ang d a = .ok ids) : ids.head? = some 0 := by
+  rw [(motion_ok acc ang d a ids h).1]; rfl
+
+/-- kept ids are strictly increasing and valid -/
+theorem motion_ids_increasing (acc : List Rat) (ang : Nat → Nat → Rat) (d a : Rat) (ids : List Nat)
+    (h : motionFilterAcc acc ang d a = .ok ids) :
+    ids.Pairwise (· < ·) ∧ ∀ i ∈ ids, i < acc.length := by
+  obtain ⟨rfl, hlen⟩ := motion_ok acc ang d a ids h
+  have hge := motionGo_ge ang d a acc.tail 1 0 0
+  have htl : acc.tail.length = acc.length - 1 := by simp
+  refine ⟨List.pairwise_cons.mpr ⟨fun c hc => ?_, motionGo_pairwise _ _ _ _ _ _ _⟩, fun i hi => ?_⟩
+  · have := hge c hc; omega
+  · rcases List.mem_cons.mp hi with rfl | hi
+    · omega
+    · have := hge i hi; omega
+
+/-- **a later pose is kept exactly if, since the last kept pose `p`, the travelled path length
+`acc[i] − acc[p]` reached the distance threshold or the rotation angle `ang p i` reached the angle
+threshold** (`acc` = accumulated distances, starting at 0) -/
+theorem motion_keep_iff (acc : List Rat) (ang : Nat → Nat → Rat) (d a : Rat) (ids : List Nat)
+    (h : motionFilterAcc acc ang d a = .ok ids) (h0 : acc[0]? = some 0)
+    (i p : Nat) (hi0 : 0 < i) (hi : i < acc.length) (hp : IsLastKeptBefore ids p i) :
+    i ∈ ids ↔ (d ≤ acc.getD i 0 - acc.getD p 0 ∨ a ≤ ang p i) := by
+  obtain ⟨rfl, hlen⟩ := motion_ok acc ang d a ids h
+  have htl : acc.tail.length = acc.length - 1 := by simp
+  have hval : ∀ k, ∀ (hk : k < acc.tail.length), acc.tail[k] = (fun j => acc.getD j 0) (1 + k) := by
+    intro k hk
+    have hk' : 1 + k < acc.length := by omega
+    simp only [List.getD_eq_getElem?_getD, List.getElem?_eq_getElem hk', Option.getD_some]
+    rw [List.getElem_tail]
+    congr 1; omega
+  have hpd : (0 : Rat) = (fun j => acc.getD j 0) 0 := by
+    simp [List.getD_eq_getElem?_getD, h0]
+  have := motionGo_spec ang d a (fun j => acc.getD j 0) acc.tail 1 0 0 hval hpd (by omega) i p
+    (by omega) (by omega) hp
+  rw [List.mem_cons]
+  constructor
+  · rintro (h | h)
+    · omega
+    · exact this.mp h
+  · intro h; exact Or.inr (this.mpr h)
+
+/-- the accumulated distances evo computes start at 0, so `motion_keep_iff` applies to
+`motionFilter` (= `filter_by_motion` from the step lengths) -/
+theorem motion_keep_iff_lens (lens : List Rat) (ang : Nat → Nat → Rat) (d a : Rat) (ids : List Nat)
+    (h : motionFilter lens ang d a = .ok ids)
+    (i p : Nat) (hi0 : 0 < i) (hi : i ≤ lens.length) (hp : IsLastKeptBefore ids p i) :
+    i ∈ ids ↔ (d ≤ (accDist lens).getD i 0 - (accDist lens).getD p 0 ∨ a ≤ ang p i) := by
+  unfold motionFilter at h
+  have h0 : (accDist lens)[0]? = some 0 := by
+    unfold accDist; cases lens <;> simp [accFrom]
+  exact motion_keep_iff (accDist lens) ang d a ids h h0 i p hi0
+    (by unfold accDist; rw [accFrom_length]; omega) hp
+
+/-! ### time cropping -/
+
+/-- **time cropping keeps exactly the poses with start ≤ t ≤ end** (`None` = first / last stamp) -/
+theorem crop_iff (ts : List Rat) (s e : Option Rat) (ids : List Nat) (h : cropIds ts s e = .ok ids) :
+    ∃ t0, ts.head? = some t0 ∧ ∀ i, i ∈ ids ↔
+      ∃ (hi : i < ts.length), s.getD t0 ≤ ts[i] ∧ ts[i] ≤ e.getD (ts.getLastD t0) := by
+  obtain ⟨t0, ht0, rfl, _⟩ := cropIds_spec ts s e ids h
+  refine ⟨t0, ht0, fun i => ?_⟩
+  rw [mem_idsWhere]
+  constructor
+  · rintro ⟨j, hj, rfl, hp⟩
+    simp only [Nat.zero_add]
+    simp only [Bool.and_eq_true, decide_eq_true_eq] at hp
+    exact ⟨hj, hp⟩
+  · rintro ⟨hi, hp⟩
+    exact ⟨i, hi, by omega, by simpa using hp⟩
+
+/-- refusal exactly for an empty trajectory or start > end -/
+theorem crop_refuses_iff (ts : List Rat) (s e : Option Rat) :
+    cropIds ts s e = .error .traj ↔
+      ts = [] ∨ ∃ t0, ts.head? = some t0 ∧ e.getD (ts.getLastD t0) < s.getD t0 := by
+  unfold cropIds
+  cases ts with
+  | nil => simp
+  | cons t0 r =>
+    simp only [List.head?_cons, Option.some.injEq, exists_eq_left', reduceCtorEq, false_or]
+    split_ifs with hlt
+    · simpa using hlt
+    · simpa using hlt
+
+theorem crop_ids_increasing (ts : List Rat) (s e : Option Rat) (ids : List Nat)
+    (h : cropIds ts s e = .ok ids) : ids.Pairwise (· < ·) := by
+  obtain ⟨t0, _, rfl, _⟩ := cropIds_spec ts s e ids h
+  exact idsWhere_pairwise _ _ _
+
+/-- cropping a trajectory preserves order and keeps stamp and pose together -/
+theorem crop_preserves_order {α} (tr out : List (Rat × α)) (s e : Option Rat)
+    (h : crop tr s e = .ok out) : out.Sublist tr := by
+  unfold crop at h
+  split at h
+  · cases h
+  · rename_i ids hids
+    injection h with h; subst h
+    exact reduceIds_sublist tr ids (crop_ids_increasing _ s e ids hids)
+
+/-! ### splitting -/
+
+/-- **concatenating the parts reproduces the trajectory** (`steps` has one entry per pair of
+consecutive poses) -/
+theorem split_concat {α} (l : List α) (thr : Rat) (steps : List Rat)
+    (hlen : steps.length = l.length - 1) :
+    (slices l (cutsOf thr steps l.length)).flatten = l := by
+  have hpw : (cutsOf thr steps l.length).Pairwise (· ≤ ·) := by
+    by_cases h0 : l.length = 0
+    · have hs : steps = [] := List.length_eq_zero_iff.mp (by omega)
+      rw [hs, h0]
+      simp [cutsOf, idsWhere]
+    · exact (cutsOf_pairwise thr steps l.length (by omega)).imp (fun h => Nat.le_of_lt h)
+  have := slices_flatten l 0 _ (by unfold cutsOf at hpw; exact hpw)
+  unfold cutsOf
+  rw [this]
+  have hl := cutsOf_getLast thr steps l.length
+  unfold cutsOf at hl
+  rw [hl, slice_zero_length]
+
+/-- **every cut is at a step exceeding the threshold**: `c` is an interior cut iff the step from
+pose `c − 1` to pose `c` exceeds the threshold -/
+theorem split_cut_exceeds (thr : Rat) (steps : List Rat) (n : Nat) (hn : steps.length < n) (c : Nat) :
+    (c ∈ cutsOf thr steps n ∧ c ≠ 0 ∧ c ≠ n) ↔
+      ∃ k, ∃ (h : k < steps.length), c = k + 1 ∧ c ≠ n ∧ thr < steps[k] := by
+  unfold cutsOf
+  simp only [List.mem_cons, List.mem_append, List.not_mem_nil, or_false]
+  constructor
+  · rintro ⟨h | h | h, h0, hn'⟩
+    · exact absurd h h0
+    · obtain ⟨k, hk, rfl, hp⟩ := (mem_cutsOf_interior thr steps c).mp h
+      exact ⟨k, hk, rfl, hn', hp⟩
+    · exact absurd h hn'
+  · rintro ⟨k, hk, rfl, hn', hp⟩
+    exact ⟨Or.inr (Or.inl ((mem_cutsOf_interior thr steps _).mpr ⟨k, hk, rfl, hp⟩)), by omega, hn'⟩
+
+/-- **no step exceeding the threshold remains inside a part**: between two consecutive cuts
+`a < b` every step `k → k+1` with `a ≤ k`, `k + 1 < b` is `≤ thr` -/
+theorem split_no_big_step_inside (thr : Rat) (steps : List Rat) (n : Nat) (hn : steps.length < n)
+    (a b : Nat) (hab : (a, b) ∈ List.zip (cutsOf thr steps n) (cutsOf thr steps n).tail)
+    (k : Nat) (hk : k < steps.length) (hak : a ≤ k) (hkb : k + 1 < b) : steps[k] ≤ thr := by
+  by_contra hgt
+  have hgt' : thr < steps[k] := not_le.mp hgt
+  have hmem : k + 1 ∈ cutsOf thr steps n := by
+    unfold cutsOf
+    exact List.mem_cons_of_mem _ (List.mem_append_left _
+      ((mem_cutsOf_interior thr steps _).mpr ⟨k, hk, rfl, hgt'⟩))
+  exact no_mem_between_consecutive _ (cutsOf_pairwise thr steps n hn) a b hab (k + 1) hmem
+    ⟨by omega, hkb⟩
+
+/-- the distance splitter thresholds the step lengths themselves (differences of the accumulated
+distances) -/
+theorem splitDist_steps_are_lengths (lens : List Rat) : adjDiffs (accDist lens) = lens :=
+  adjDiffs_accFrom 0 lens
+
+/-- the three splitters partition their trajectory -/
+theorem splitTime_concat {α} (tr : List (Rat × α)) (dt : Rat) :
+    (slices tr (splitTimeCuts (tr.map Prod.fst) dt)).flatten = tr := by
+  unfold splitTimeCuts
+  have := split_concat tr dt (adjDiffs (tr.map Prod.fst)) (by rw [adjDiffs_length]; simp)
+  simpa using this
+
+theorem splitDist_concat {α} (l : List α) (lens : List Rat) (thr : Rat) (h : l.length = lens.length + 1) :
+    (slices l (splitDistCuts lens thr)).flatten = l := by
+  unfold splitDistCuts
+  rw [splitDist_steps_are_lengths, ← h]
+  exact split_concat l thr lens (by omega)
+
+theorem splitSpeed_concat {α} (tr : List (Rat × α)) (lens : List Rat) (vmax : Rat) (cuts : List Nat)
+    (hl : lens.length = tr.length - 1)
+    (h : splitSpeedCuts lens (tr.map Prod.fst) vmax = .ok cuts) :
+    (slices tr cuts).flatten = tr := by
+  unfold splitSpeedCuts at h
+  simp only [List.length_map] at h
+  split_ifs at h with hlt
+  · injection h with h; subst h
+    simp only [slices, slice, List.flatten_cons, List.flatten_nil, List.append_nil]
+    simp
+  · split at h
+    · cases h
+    · rename_i v hv
+      injection h with h; subst h
+      have hvlen : v.length = tr.length - 1 := by
+        have key : ∀ (ls ds : List Rat) (v : List Rat), speedsGo ls ds = .ok v →
+            v.length = min ls.length ds.length := by
+          intro ls
+          induction ls with
+          | nil => intro ds v h; simp [speedsGo] at h; subst h; simp
+          | cons x xs ih =>
+            intro ds v h
+            cases ds with
+            | nil => simp [speedsGo] at h; subst h; simp
+            | cons y ys =>
+              simp only [speedsGo] at h
+              split_ifs at h
+              split at h
+              · cases h
+              · rename_i r hr
+                injection h with h; subst h
+                simp [ih ys r hr]
+        unfold speeds at hv
+        rw [key _ _ _ hv, adjDiffs_length]
+        simp [hl]
+      exact split_concat tr vmax v hvlen
+
+/-! ### merging -/
+
+/-- the order applied by `merge` is a permutation of all concatenated indices -/
+theorem merge_order_perm (s : List Rat) : (argsortStable s).Perm (List.range s.length) :=
+  argsortStable_perm s
+
+/-- **merging yields the time-sorted …** -/
+theorem merge_sorted {P Q} (ts : List (Traj P Q)) : (mergeTraj ts).stamps.Pairwise (· ≤ ·) :=
+  argsort_sorted _
+
+/-- **… in which every pose keeps its own timestamp**: the merged (stamp, position, orientation)
+triples are the concatenated triples selected by one and the same index list -/
+theorem merge_keeps_triples {P Q} (ts : List (Traj P Q))
+    (h1 : (concatTraj ts).stamps.length = (concatTraj ts).xyz.length)
+    (h2 : (concatTraj ts).xyz.length = (concatTraj ts).quat.length) :
+    List.zip (mergeTraj ts).stamps (List.zip (mergeTraj ts).xyz (mergeTraj ts).quat)
+      = reduceIds (List.zip (concatTraj ts).stamps (List.zip (concatTraj ts).xyz (concatTraj ts).quat))
+          (argsortStable (concatTraj ts).stamps) := by
+  unfold mergeTraj
+  simp only
+  rw [reduceIds_zip3 _ _ _ _ h1 h2]
+
+/-- **… union**: the merged triples are a permutation of all input triples -/
+theorem merge_perm {P Q} (ts : List (Traj P Q))
+    (h1 : (concatTraj ts).stamps.length = (concatTraj ts).xyz.length)
+    (h2 : (concatTraj ts).xyz.length = (concatTraj ts).quat.length) :
+    (List.zip (mergeTraj ts).stamps (List.zip (mergeTraj ts).xyz (mergeTraj ts).quat)).Perm
+      (List.zip (concatTraj ts).stamps (List.zip (concatTraj ts).xyz (concatTraj ts).quat)) := by
+  rw [merge_keeps_triples ts h1 h2]
+  set z := List.zip (concatTraj ts).stamps (List.zip (concatTraj ts).xyz (concatTraj ts).quat) with hz
+  have hlen : z.length = (concatTraj ts).stamps.length := by
+    rw [hz]; simp only [List.length_zip]; omega
+  have hp := (argsortStable_perm (concatTraj ts).stamps).filterMap (fun i => z[i]?)
+  rw [← hlen, filterMap_range_getElem?] at hp
+  exact hp
+
+/-! ### all selections -/
+
+/-- **all of these preserve the relative order of the kept poses**: a selection by strictly
+increasing ids is a sublist of the input -/
+theorem selection_preserves_order {α} (l : List α) (ids : List Nat) (h : ids.Pairwise (· < ·)) :
+    (reduceIds l ids).Sublist l := reduceIds_sublist l ids h
+
+/-- **… and keep pose, orientation and timestamp of each kept pose together**: applying the ids to
+the three parallel arrays (as `reduce_to_ids` does) is the same as selecting whole triples -/
+theorem selection_keeps_pose_quat_stamp_together {α β γ} (xyz : List α) (quat : List β) (stamps : List γ)
+    (ids : List Nat) (h1 : xyz.length = quat.length) (h2 : quat.length = stamps.length) :
+    List.zip (reduceIds xyz ids) (List.zip (reduceIds quat ids) (reduceIds stamps ids))
+      = reduceIds (List.zip xyz (List.zip quat stamps)) ids :=
+  (reduceIds_zip3 xyz quat stamps ids h1 h2).symm
+
+/-! ### non-vacuity: the hypotheses above are met by concrete non-trivial instances -/
+
+/-- the rounding hypothesis is satisfiable (exact arithmetic satisfies it) -/
+example : F64Rounding id := ⟨fun x hx _ => by simp only [id, sub_self, abs_zero]; positivity, fun _ _ => rfl⟩
+
+example : linspaceIds 10 4 = [0, 3, 6, 9] := by decide +kernel
+example : linspaceIds 31 23 =
+    [0, 1, 2, 4, 5, 6, 8, 9, 10, 12, 13, 14, 16, 17, 19, 20, 21, 23, 24, 25, 27, 28, 30] := by decide +kernel
+example : InEnvelope 30 22 11 14 := Or.inr ⟨by decide, by decide, by decide⟩
+example : (3 : Nat) * (5000 - 1) * (5000 - 1) < 2 ^ 53 := by decide
+example : downsample [10, 11, 12, 13, 14, 15, 16] 3 = .ok [10, 13, 16] := by decide +kernel
+example : motionFilter [5, 5, 5, 0, 5] (fun _ _ => 0) 10 1 = .ok [0, 2, 5] := by decide +kernel
+example : motionFilter [1, 1, 1] (fun j i => if j = 0 ∧ i = 2 then 2 else 0) 10 2 = .ok [0, 2] := by
+  decide +kernel
+example : IsLastKeptBefore [0, 2, 5] 2 4 := ⟨by decide, by decide, by decide⟩
+example : cropIds [0, 1, 2, 3, 4] (some 1) (some 3) = .ok [1, 2, 3] := by decide +kernel
+example : cropIds [0, 1, 2, 3, 4] none (some 2) = .ok [0, 1, 2] := by decide +kernel
+example : cropIds [0, 1, 2] (some 2) (some 1) = .error .traj := by decide +kernel
+example : splitTimeCuts [0, 1, 3, 4, 9] 1 = [0, 2, 4, 5] := by decide +kernel
+example : slices [10, 11, 12, 13, 14] (splitTimeCuts [0, 1, 3, 4, 9] 1) = [[10, 11], [12, 13], [14]] := by
+  decide +kernel
+example : splitDistCuts [5, 10, 5] 5 = [0, 2, 4] := by decide +kernel
+example : splitSpeedCuts [5, 10] [0, 1, 2] 7 = .ok [0, 2, 3] := by decide +kernel
+example : (mergeTraj [(⟨[0, 2, 4], [10, 11, 12], [20, 21, 22]⟩ : Traj Nat Nat), ⟨[1, 2, 3], [13, 14, 15], [23, 24, 25]⟩]).xyz
+    = [10, 13, 11, 14, 15, 12] := by
+  norm_num [mergeTraj, concatTraj, argsortStable, reduceIds, List.mergeSort,
+    List.MergeSort.Internal.splitInTwo, List.merge, List.zipIdx]
+  decide
 
 end Evo.C11
